@@ -84,6 +84,12 @@ def ops_for(sym, level):
         ops += [("add", sym, 2.0, "L", not pfx, 0.0), ("modf", sym, 2.0), ("modq", sym, 2.0, other, "own"),
                 ("def", sym, 0.25, "km", pfx, "default"), ("modq", sym, 1.0, "k" + other + "*s", "own"),
                 ("add", sym, 1.5, "K", pfx, 10.0)]
+        # electromagnetic dimensions (base conversion of such quantities walks another path: the CGS/SI pairing rebuilds every
+        # atom of the unit from its string) and modify() by a quantity written in the edited symbol itself / its prefixed form
+        ops += [("add", sym, 2.0, "M T-2 I-1", pfx, 0.0), ("add", sym, 0.5, "I T", pfx, 0.0)]
+        if sym in CUSTOM:      # (a built-in symbol's own table value would enter the new value: the model holds the reference
+            #                    table's number for it, equal only within its tolerance class - C02's subject)
+            ops += [("modq", sym, 5.0, sym, "own"), ("modq", sym, 2.0, "k" + sym, "own")]
     if level >= 2:
         ops += [("add", sym, 1024.0, "L T-1", pfx, 0.0), ("modf", sym, 1e-3)]
     return ops
